@@ -536,7 +536,9 @@ impl Melda {
                 // If its an array descriptor first need to compute the delta
                 // If create_delta_array_descriptor returns None it means that there are
                 // no differences between the current array and the new one
-                let object = if is_array_descriptor(uuid) {
+                // (a deleted array descriptor is re-created with its full order: a delta against
+                // the empty order of a deletion could be empty and would leave it deleted)
+                let object = if is_array_descriptor(uuid) && !winning_revision.is_deleted() {
                     self.create_delta_array_descriptor(obj, &rt_w).unwrap()
                 } else {
                     Some(obj)
